@@ -621,6 +621,7 @@ def write_evidence(pid, P, tier, seed, t0, theorems, discharged, stats_all, samp
         "cases_explained_by_known_findings": explained,
         "notes": notes,
         "gen_modules": {g: ((facts or {}).get("hashes") or {}).get(g) for g in P.get("gen", [])},
+        "partial_clauses": P.get("partial", []),
     }
     ev = {
         "property_id": pid, "tier": tier, "seed": seed, "level": P.get("level", "proof"),
